@@ -505,7 +505,84 @@ func runC13(c *Ctx) {
 		if !parses {
 			c.ok("full-length@parseNetipPrefix", 0, "the ip_set plugin has no parser of its own (it loads through netlist.LoadFromText)")
 		} else {
-			c.anchorMissing("plugin/data_provider/ip_set.parseNetipPrefix")
+			// the parser inlined into its caller: same obligations on what is appended to the list
+			decided := false
+			for _, g := range c.P.funcsIn("plugin/data_provider/ip_set") {
+				hasParse, fullLen := false, false
+				var appends []*ssa.Call
+				eachInstr(g, func(in ssa.Instruction) {
+					ci, ok := in.(*ssa.Call)
+					if !ok {
+						return
+					}
+					switch cn := callName(ci); {
+					case cn == "net/netip.ParseAddr":
+						hasParse = true
+					case cn == "(net/netip.Addr).Prefix":
+						if b, ok := ci.Call.Args[1].(*ssa.Call); ok && callName(b) == "(net/netip.Addr).BitLen" && sameLoadedPlace(b.Call.Args[0], ci.Call.Args[0]) {
+							fullLen = true
+						}
+					case strings.HasSuffix(cn, "netlist.List).Append"):
+						appends = append(appends, ci)
+					}
+				})
+				if !hasParse {
+					continue
+				}
+				decided = true
+				good := fullLen && len(appends) > 0
+				tr := c.P.newTracer()
+				tr.throughCalls, tr.throughParams, tr.throughFields = false, false, false
+				for _, ap := range appends {
+					var vals []ssa.Value
+					for _, a := range ap.Call.Args[1:] {
+						// the variadic argument: the elements stored into the implicit array
+						if sl, isSl := a.(*ssa.Slice); isSl {
+							if al, isAl := sl.X.(*ssa.Alloc); isAl {
+								for _, r := range referrers(al) {
+									if ia, ok := r.(*ssa.IndexAddr); ok {
+										for _, r2 := range referrers(ia) {
+											if st, ok := r2.(*ssa.Store); ok && st.Addr == ssa.Value(ia) {
+												vals = append(vals, st.Val)
+											}
+										}
+									}
+								}
+								continue
+							}
+						}
+						vals = append(vals, a)
+					}
+					if len(vals) == 0 {
+						good = false
+					}
+					for _, a := range vals {
+						for _, o := range tr.origins(a) {
+							okO := false
+							if ex, isE := o.(*ssa.Extract); isE && ex.Index == 0 {
+								if cl, isC := ex.Tuple.(*ssa.Call); isC {
+									if cn := callName(cl); cn == "net/netip.ParsePrefix" || cn == "(net/netip.Addr).Prefix" {
+										okO = true
+									}
+								}
+							}
+							if _, isZero := o.(*ssa.Const); isZero {
+								okO = true
+							}
+							if _, isAl := o.(*ssa.Alloc); isAl {
+								okO = true // the zero value of the declared variable
+							}
+							if !okO {
+								good = false
+							}
+						}
+					}
+				}
+				c.check(good, "full-length@parseNetipPrefix", g.Pos(), "what is appended is ParsePrefix(s) as parsed or addr.Prefix(addr.BitLen()) (parser inlined in "+g.Name()+")", "the inlined ip_set parser re-assembles a prefix from an address and a length of different families, or does not load a bare address with its full length")
+			}
+			if !decided {
+				c.anchorMissing("plugin/data_provider/ip_set.parseNetipPrefix")
+			}
 		}
 	}
 	if f := ipSetParser; f != nil && len(f.Blocks) > 0 {
